@@ -53,6 +53,13 @@ func init() {
 
 type c05ReqVal struct{ Tok string }
 
+// application-scoped service mapped by its concrete type and requested through an interface
+// (the implementor search runs on the shared application injector while serving)
+type c05Namer interface{ Name() string }
+type c05Svc struct{ name string }
+
+func (s *c05Svc) Name() string { return s.name }
+
 type c05Req struct {
 	Kind   string
 	Tok    string
@@ -131,6 +138,7 @@ func (s *c05Sched) perturb(tok string, phase int) {
 
 func buildC05(s *c05Sched) *flamego.Flame {
 	f := flamego.NewWithLogger(io.Discard)
+	f.Map(&c05Svc{name: "svc"})
 	f.Use(func(c flamego.Context) {
 		n := atomic.AddInt64(&s.inflight, 1)
 		for {
@@ -158,11 +166,11 @@ func buildC05(s *c05Sched) *flamego.Flame {
 			s.perturb(c.Request().Header.Get("X-Tok"), 1)
 			c.Next()
 		}
-		final := func(c flamego.Context, v c05ReqVal, req *http.Request, w http.ResponseWriter) { // reflective path
+		final := func(c flamego.Context, v c05ReqVal, req *http.Request, w http.ResponseWriter, nm c05Namer) { // reflective path
 			p := c.Params()
 			body, _ := c.Request().Body().String()
-			out := fmt.Sprintf("kind=%s;tok=%s;hdr=%s;inj=%s;route=%s;url=%s;n=%s;rest=%s;body=%s;method=%s",
-				kind, p["tok"], req.Header.Get("X-Tok"), v.Tok, c.Param("route"), c.URLPath("user", "tok", v.Tok), p["n"], p["rest"], body, req.Method)
+			out := fmt.Sprintf("kind=%s;tok=%s;hdr=%s;inj=%s;route=%s;url=%s;n=%s;rest=%s;body=%s;method=%s;svc=%s",
+				kind, p["tok"], req.Header.Get("X-Tok"), v.Tok, c.Param("route"), c.URLPath("user", "tok", v.Tok), p["n"], p["rest"], body, req.Method, nm.Name())
 			s.perturb(v.Tok, 2)
 			_, _ = w.Write([]byte(out))
 		}
